@@ -236,7 +236,6 @@ const sigDecodeOneofDup = "C18 codec decode populated of a reflected type -> err
 // failure, path that does not resolve, panic) is a NEW violation: that part is fixed.
 const sigCollision = "C18 shared SchemaCache, two descriptors with the same split name (package, names joined by _): the one asked second is an error (schema name is used by both), a fresh cache answers it"
 
-
 var reAlreadySet = regexp.MustCompile(`field ([A-Za-z0-9_]+) is already set`)
 
 type c18case struct {
